@@ -139,6 +139,10 @@ func NewSrc(kind, fault string) (*Src, error) {
 		case "none":
 		case "sample":
 			fail = "StartCollector#1"
+		case "samplesilent": // the crate is not streaming yet: no frame bits within the sampling time
+			fail = "silent"
+		case "sampleread": // reading the card fails while sampling
+			fail = "AvailableBuffer#2"
 		case "runearly":
 			fail = "StartAdapter#2"
 		case "runlate":
